@@ -27,7 +27,7 @@ warnings.filterwarnings("ignore")
 
 def exc_code(exc):
     """Map an exception raised by a formula to the spec's error codes."""
-    if isinstance(exc, ValueError) and exc.args and isinstance(exc.args[0], str) \
+    if isinstance(exc, (ValueError, GeneratorExit)) and exc.args and isinstance(exc.args[0], str) \
             and exc.args[0].startswith("E") and exc.args[0][1:].isdigit():
         return -(10 + int(exc.args[0][1:]))
     if isinstance(exc, NoneReturnedError):
@@ -611,7 +611,9 @@ class World:
             ev["raw"] = 1
         except DeletedObjectError as e:
             ev["res"] = -98 if kind == "call" else "deleted"
-        except Exception as e:
+        except BaseException as e:
+            if isinstance(e, (KeyboardInterrupt, SystemExit)):
+                raise
             if kind == "call":
                 ev["res"] = exc_code(e)
                 ev["errtype"] = type(e).__name__
